@@ -182,7 +182,7 @@ func crashBody(c *Ctx, s *sim.Sim, at int, tag string) (victimSteps int) {
 	seq := 0
 	newVal := func(kind cache.EntryKind) (*crashKey, *world.Blob) {
 		seq++
-		b := world.Make(world.BlobID{Kind: r.Intn(3), Seed: 300 + seq, Size: drawSize()})
+		b := world.Make(world.BlobID{Kind: r.Intn(4), Seed: 300 + seq, Size: drawSize()})
 		if kind == cache.CAS {
 			return key(cache.CAS, b.Hash), b
 		}
